@@ -165,6 +165,27 @@ CHECKS["C02"] = dict(
     design="5 C02", technique="TLA+ self-composition model-checked with TLC; TLC-generated stream pairs run through the real "
                               "environment and compared bit for bit", note=ENV_NOTE)
 
+CHECKS["C10"] = dict(
+    text="EnvPair.tla: two EnvFull environments share only the process-wide contract clock; TLC interleaves their reset/step calls "
+         "in every order (resets at any time) next to solo twins receiving the same calls, and checks IsolatedOutputs / "
+         "IsolatedState. Every schedule is replayed on two real TradingEnv instances in one process (ETF + real ES chain around a "
+         "roll); each environment's rewards, trades, holdings, NLV and track record are compared bit for bit with the same calls "
+         "run alone and, after the last reset, with a freshly built environment. On Env.tla behaviours with resets anywhere "
+         "(abandoned episodes, episodes ended by a malformed action, folds, markov / warm-up, latency, delay) the episode after the "
+         "last reset is compared bit for bit with a fresh environment.",
+    design="5 C10", technique="TLA+ composition (EnvPair.tla) model-checked with TLC; every schedule replayed on real "
+                              "environments and compared bit for bit with solo / fresh runs", note=FULL_NOTE)
+CHECKS["C16"] = dict(
+    text="Metrics.tla states the textbook definitions over exact rationals; TLC enumerates every level series over the listed "
+         "index patterns (daily, gaps, several observations per day, spans of 73/146/365 days) and integer levels, checks "
+         "ScaleInvariant, DrawdownRange, ReturnsCompound, TailBelowVar, and writes the exact values; each series is evaluated by the "
+         "pandas methods (returns, CAGR via (1+CAGR)^years = last/first, volatility^2/252, drawdown, VaR, ES, down/upside, ulcer, "
+         "tracking error, Sharpe/Sortino/Calmar/Martin composed from the pieces, scale invariance, DataFrame variant) and every "
+         "single-defect corruption must be rejected.",
+    design="5 C16", level="model_checking", technique="TLA+ definitions over exact rationals enumerated by TLC on a bounded "
+                              "domain; every series evaluated by the real pandas methods",
+    note="Bounded domain only (series of 2..5 observations, levels 1..4); regressions (alpha/beta) and omega ratio not covered.")
+
 PENDING = "check not built yet in this round (the TLA+ model for it is planned in DESIGN.md section 5); listed here until its check is registered"
 
 
